@@ -344,6 +344,8 @@ def run_property(mod, tier, seed, replay=None, budget_s=None):
 
     def run_one(case):
         try:
+            if case.get("_aged"):
+                aging.reset(int(case_hash(jsonable({k: v for k, v in case.items() if not k.startswith("_")})), 16))
             with aging.aging(bool(case.get("_aged"))):
                 return mod.run_impl(case)
         except MachineryError:
